@@ -94,6 +94,7 @@ type loopInfo struct {
 	phis    []*ssa.Phi
 	headMem Mem
 	headG   string
+	nback   int
 }
 
 type rangeIter struct {
@@ -1339,8 +1340,8 @@ func (vc *VC) copyElems(m Mem, comp, darr, doff, sarr, soff, n string) {
 	D := app("select", M, darr)
 	S := app("select", M, sarr)
 	a2 := vc.fresh("cpy", inner)
-	vc.assume(fmt.Sprintf("(forall ((_j (_ BitVec 64))) (! (= (select %s _j) (ite (and (bvule %s _j) (bvult _j (bvadd %s %s))) (select %s (bvadd %s (bvsub _j %s))) (select %s _j))) :pattern ((select %s _j))))",
-		a2, doff, doff, n, S, soff, doff, D, a2))
+	vc.assume(fmt.Sprintf("(forall ((_j (_ BitVec 64))) (! (= (select %s _j) (ite (and (bvule %s _j) (bvult _j (bvadd %s %s))) (select %s (bvadd %s (bvsub _j %s))) (select %s _j))) :pattern ((select %s _j)) :pattern ((select %s _j))))",
+		a2, doff, doff, n, S, soff, doff, D, a2, D))
 	vc.set(m, comp, app("store", M, darr, a2))
 }
 
